@@ -334,6 +334,11 @@ class UnitOfWork(object):
         for prop in versioned_column_properties(parent_obj):
             try:
                 value = getattr(parent_obj, prop.key)
-            except sa.orm.exc.ObjectDeletedError:
+            except (sa.orm.exc.ObjectDeletedError, KeyError):
+                # The row of a deleted object is gone, so an attribute that
+                # was not loaded before the delete (expired, deferred or not
+                # fetched by a polymorphic load) cannot be loaded any more;
+                # SQLAlchemy reports that as ObjectDeletedError or, for
+                # deferred loaders, as KeyError.
                 value = None
             setattr(version_obj, prop.key, value)
